@@ -167,6 +167,8 @@ class C17Acpc(Monitor):
                     self.report('acpc', 'acpc_shape', f'match state {last!r}')
                     continue
                 self._check_fields(s, replayed, played, f[3], f[4], pos, nt, tag, f'ACPC seat {pos}')
+                if getattr(self, '_lag', False):
+                    continue        # the model writes the line of the whole log, this message is older
                 sess.script.append(f'acpc {int(nt)} {pos} {n} ' + ' '.join(encode_ops(log)))
                 sess.expect.append(f'Z {f[3]}:{f[4]}')
 
@@ -207,7 +209,13 @@ class C17Acpc(Monitor):
                 else:
                     split = True
             prev_board = nme == 'BoardDealing' or (prev_board and nme == 'NoOperation')
-        if toks != want:
+        lag = self._lag = False
+        if s.status and viewer is not None and len(toks) < len(want) and toks == want[:len(toks)]:
+            # a hand in progress: the viewer's last match state was sent at the last betting action of a round
+            # that is still on; what happened since (the closing action, a run-out being dealt) reaches him with
+            # the next message.  The line is a prefix of the hand; the cards tabled or dealt since are not in it
+            lag = self._lag = True
+        if toks != want and not lag:
             k = next((i for i, (a, b) in enumerate(zip(toks, want)) if a != b), min(len(toks), len(want)))
             self.report('actions', ('split_street:' if split else '') + tag + ('raise_amount' if k < min(len(toks), len(want)) and toks[k][0] == want[k][0] == 'r' else 'action_sequence'),
                         f'{what}: action field {actions!r} reads {toks[k:k + 3]} at #{k}, the hand played {want[k:k + 3]} '
@@ -236,6 +244,8 @@ class C17Acpc(Monitor):
             toks_of = lambda t: sorted(t[k:k + 2] for k in range(0, len(t), 2)) if t is not None else None  # noqa: E731
             # a seat that tabled its cards: the same cards, in the order dealt or the order tabled
             same = got == vis or (i in shown and toks_of(got) == toks_of(vis))
+            if lag and i != viewer:
+                continue
             if not same and not (len(dealt.get(i, [])) < 2 and viewer not in (None, i)):
                 self.report('cards', tag + 'hole_field', f'{what}: hole field {hole!r}: seat {i} shows {got!r}, visible cards {vis!r}')
         bw, prev_b = [], False
@@ -247,6 +257,8 @@ class C17Acpc(Monitor):
                 else:
                     bw.append(''.join(repr(c) for c in o.cards))
             prev_b = nme == 'BoardDealing' or (prev_b and nme == 'NoOperation')
+        if lag and boards == bw[:len(boards)]:
+            bw = boards
         if boards != bw:
             self.report('cards', ('split_street:' if split else '') + tag + 'board_field', f'{what}: board field {boards}, dealt {bw}')
         return split
